@@ -8,6 +8,7 @@ import (
 	"math/rand/v2"
 	"net"
 	"sync"
+	"sync/atomic"
 	"testing"
 	"testing/synctest"
 	"time"
@@ -66,6 +67,9 @@ type rigStream struct {
 	side int
 	st   *Stream
 
+	// set by the operation goroutines when the call has returned (read by the wedge oracle from outside the bubble)
+	rdFin, wrFin, clFin atomic.Bool
+
 	rdBusy bool
 	rdCh   chan ioRes
 	got    int64
@@ -98,6 +102,9 @@ type rigStream struct {
 	lastShort    bool
 	dgRefused    int
 	dgRefusedIdx []int
+	// datagrams handed to a ReadFrom that has not (or not successfully) finished: they may or may not have been sent
+	dgMaybe   map[int]bool
+	dgFromIdx []int
 }
 
 type rigRecord struct {
@@ -239,6 +246,9 @@ func newRig(t *testing.T, cfg rigCfg) (*rig, error) {
 	go r.acceptLoop(sideS)
 	go r.acceptLoop(sideC)
 	synctest.Wait()
+	// consulted only if the bubble ends up permanently stuck on a lock (see kit/run.go); judges only scenarios
+	// with an injected fault or session close
+	vk.SetWedgeCheck(r.wedgeOracle)
 	return r, nil
 }
 
@@ -575,6 +585,18 @@ func (r *rig) onRead(s *rigStream, res ioRes) error {
 }
 
 func (r *rig) onWrite(s *rigStream, res ioRes) {
+	if s.wrFrom && r.cfg.Unordered {
+		// relay of datagrams: a source that ran dry (EOF) means every datagram was sent
+		if errors.Is(res.err, io.EOF) && !s.wrExpectFail {
+			for _, i := range s.dgFromIdx {
+				delete(s.dgMaybe, i)
+			}
+		} else if s.wrExpectFail && res.n > 0 {
+			s.wrAfterCloseOK++
+		}
+		s.dgFromIdx = nil
+		return
+	}
 	if s.wrExpectFail {
 		if res.err == nil || res.n > 0 {
 			s.wrAfterCloseOK++
@@ -615,12 +637,14 @@ func (r *rig) startRead(s *rigStream, bufSize int) {
 		bufSize = 1
 	}
 	s.rdBusy = true
+	s.rdFin.Store(false)
 	s.rdCh = make(chan ioRes, 1)
 	ch := s.rdCh
 	st := s.st
 	go func() {
 		buf := make([]byte, bufSize)
 		n, err := st.Read(buf)
+		s.rdFin.Store(true)
 		ch <- ioRes{n, err, buf}
 	}()
 }
@@ -630,6 +654,7 @@ func (r *rig) startWrite(s *rigStream, size int) {
 		return
 	}
 	s.wrBusy = true
+	s.wrFin.Store(false)
 	s.wrFrom = false
 	s.wrSize = size
 	_, peerCloseProcessed := r.recvState(s.id, dirOf(1-s.side))
@@ -651,6 +676,7 @@ func (r *rig) startWrite(s *rigStream, size int) {
 	}
 	go func() {
 		n, err := st.Write(data)
+		s.wrFin.Store(true)
 		ch <- ioRes{n: n, err: err}
 	}()
 }
@@ -686,6 +712,7 @@ func (r *rig) startReadFrom(s *rigStream, chunks []int) {
 		total += c
 	}
 	s.wrBusy = true
+	s.wrFin.Store(false)
 	s.wrFrom = true
 	s.wrSize = total
 	s.wrCh = make(chan ioRes, 1)
@@ -695,6 +722,57 @@ func (r *rig) startReadFrom(s *rigStream, chunks []int) {
 	s.attempted += int64(total)
 	go func() {
 		n, err := st.ReadFrom(rd)
+		s.wrFin.Store(true)
+		ch <- ioRes{n: int(n), err: err}
+	}()
+}
+
+// dgReader is a message-oriented source (a UDP socket): every Read returns one whole datagram, cut to the
+// buffer if that is too small (the rest is lost, as with recvfrom).
+type dgReader struct{ msgs [][]byte }
+
+func (d *dgReader) Read(p []byte) (int, error) {
+	if len(d.msgs) == 0 {
+		return 0, io.EOF
+	}
+	m := d.msgs[0]
+	d.msgs = d.msgs[1:]
+	return copy(p, m), nil
+}
+
+// startDgFrom relays datagrams of the given sizes (each at most one frame's capacity) into the stream with ReadFrom,
+// as the server's udp relay does.
+func (r *rig) startDgFrom(s *rigStream, sizes []int) {
+	if s.wrBusy || s.closeBusy || !r.cfg.Unordered {
+		return
+	}
+	s.wrBusy = true
+	s.wrFin.Store(false)
+	s.wrFrom = true
+	s.wrSize = 0
+	_, peerCloseProcessed := r.recvState(s.id, dirOf(1-s.side))
+	s.wrExpectFail = s.closeDone || peerCloseProcessed
+	if s.dgMaybe == nil {
+		s.dgMaybe = map[int]bool{}
+	}
+	s.dgFromIdx = nil
+	rd := &dgReader{}
+	for _, size := range sizes {
+		data := make([]byte, size)
+		idx := len(s.dgSent)
+		vFill(data, rigTag(s.id, s.side)^(uint64(idx+1)*0x9E37), 0)
+		s.dgSent = append(s.dgSent, data)
+		s.dgMatched = append(s.dgMatched, false)
+		s.dgMaybe[idx] = true
+		s.dgFromIdx = append(s.dgFromIdx, idx)
+		rd.msgs = append(rd.msgs, data)
+	}
+	s.wrCh = make(chan ioRes, 1)
+	ch := s.wrCh
+	st := s.st
+	go func() {
+		n, err := st.ReadFrom(rd)
+		s.wrFin.Store(true)
 		ch <- ioRes{n: int(n), err: err}
 	}()
 }
@@ -713,7 +791,12 @@ func (r *rig) startClose(s *rigStream) {
 	s.closeCh = make(chan error, 1)
 	ch := s.closeCh
 	st := s.st
-	go func() { ch <- st.Close() }()
+	s.clFin.Store(false)
+	go func() {
+		err := st.Close()
+		s.clFin.Store(true)
+		ch <- err
+	}()
 }
 
 // step executes one op (and its companions) and waits for quiescence.
@@ -756,6 +839,10 @@ func (r *rig) start(op rigOp) error {
 		if s := r.stream(op.Side, op.S); s != nil {
 			r.startReadFrom(s, op.L)
 		}
+	case "dgfrom":
+		if s := r.stream(op.Side, op.S); s != nil {
+			r.startDgFrom(s, op.L)
+		}
 	case "read":
 		if s := r.stream(op.Side, op.S); s != nil {
 			r.startRead(s, op.N)
@@ -782,6 +869,36 @@ func (r *rig) start(op rigOp) error {
 		for _, l := range r.links {
 			l.SetLimit(vk.AtoB, op.N)
 			l.SetLimit(vk.BtoA, op.N)
+		}
+	}
+	return nil
+}
+
+// wedgeOracle is what C12 states about a session after a fault or a session Close, evaluated on the rig's
+// bookkeeping while the bubble is permanently stuck: every blocked call has returned and every connection has
+// been closed by both sessions. Before any teardown was triggered there is nothing to judge.
+func (r *rig) wedgeOracle() error {
+	if !r.faulted {
+		return nil
+	}
+	for side := 0; side < 2; side++ {
+		for _, s := range r.streams[side] {
+			if s.rdBusy && !s.rdFin.Load() {
+				return vk.ViolateSig("stuck-after-teardown", "after a connection fault / session close, stream %d side %d: a blocked Read never returns", s.id, s.side)
+			}
+			if s.wrBusy && !s.wrFin.Load() {
+				return vk.ViolateSig("stuck-after-teardown", "after a connection fault / session close, stream %d side %d: a blocked Write never returns", s.id, s.side)
+			}
+			if s.closeBusy && !s.clFin.Load() {
+				return vk.ViolateSig("stuck-after-teardown", "after a connection fault / session close, stream %d side %d: Stream.Close never returns", s.id, s.side)
+			}
+		}
+	}
+	if r.sesh[0].IsClosed() && r.sesh[1].IsClosed() {
+		for li, l := range r.links {
+			if l.A.CloseCalls == 0 || l.B.CloseCalls == 0 {
+				return vk.ViolateSig("stuck-after-teardown", "both sessions are closed but connection %d was never closed by both of them (client end closed %d times, server end %d times)", li, l.A.CloseCalls, l.B.CloseCalls)
+			}
 		}
 	}
 	return nil
